@@ -36,6 +36,54 @@ def _render_part(p, rng, single):
     return ['x', '1.5', '--1', 'none', '1 2', '0x10', 'NONE', '1e3', '-', '+', 'None1', ';']
 
 
+def in_situ(ctx, traces):
+    """Selector objects as the library and the repository's own tests use them: every Slice / Sample created while the real
+    LAS converters run on generated files and while tests/unit/common/test_Slice.py runs is recorded call by call."""
+    import contextlib
+    import os
+    import warnings
+    from .. import slicetrace
+    from . import c11
+    from TotalDepth.common import Slice as S
+    from TotalDepth.RP66V1 import ToLAS as RT
+    from TotalDepth.BIT import ToLAS as BT
+    rng = ctx.subrng('c15-insitu')
+    wd = ctx.wdir('insitu')
+    n0 = len(traces)
+    with contextlib.ExitStack() as quiet:
+        devnull = quiet.enter_context(open(os.devnull, 'w'))
+        quiet.enter_context(contextlib.redirect_stdout(devnull))
+        quiet.enter_context(contextlib.redirect_stderr(devnull))
+        quiet.enter_context(warnings.catch_warnings())
+        warnings.simplefilter('ignore')
+        with slicetrace.record_selectors() as recs:
+            for t in range(ctx.pick(10, 80)):
+                for fmt, build, conv in (('dlis', c11.build_dlis, RT.single_rp66v1_file_to_las), ('bit', c11.build_bit, BT.single_bit_path_to_las_path)):
+                    data = build(rng)[0]
+                    pin = os.path.join(wd, 'f%d.%s' % (t, fmt))
+                    with open(pin, 'wb') as f:
+                        f.write(data)
+                    sel = S.Sample(rng.choice([1, 2, 3, 7])) if rng.random() < 0.5 else S.Slice(rng.choice([None, 0, 1, -3]), rng.choice([None, 4, -1]), rng.choice([None, 1, 2, 3]))
+                    conv(pin, 'first', os.path.join(wd, 'o%d' % t, 'f.las'), sel, set(), 16, '.3f')
+                    os.remove(pin)
+            nlib = len(recs)
+            import pytest
+            root = repo.REPO if os.path.isdir(os.path.join(repo.REPO, 'tests')) else '/repo'
+            tfile = os.path.join(root, 'tests/unit/common/test_Slice.py')
+            if os.path.exists(tfile):
+                rc = pytest.main(['-q', '-p', 'no:cacheprovider', '--no-header', '-W', 'ignore', '--rootdir', root, tfile])
+                ctx.notes['repo_test_Slice_exit_code'] = int(rc)
+    judged = 0
+    for i, r in enumerate(recs):
+        if r.judged and len(r.ev) > 1:
+            judged += 1
+            traces.append(r.ev)
+            ctx.case(('insitu', i), True)
+    ctx.notes['insitu_selector_objects'] = dict(recorded=len(recs), judged=judged, from_library=nlib)
+    if judged == 0:
+        ctx.vacuity.append('no selector object of the library or the repository tests was recorded')
+
+
 def run(ctx):
     repo.setup()
     from TotalDepth.common import Slice as S
@@ -161,6 +209,7 @@ def run(ctx):
             ctx.case(('hist', t, n), n > 1)
         traces.append(tr)
     ctx.sample(dict(kind='trace', events=traces[-1][:4]))
+    in_situ(ctx, traces)
     rej = ctx.validate_traces('SliceSelTrace', 'SliceSelTrace', traces, cfg_consts=cc, label='selectors',
                               workers=16)
     for t, l, st in rej:
